@@ -272,6 +272,8 @@ def _run(case):
         "log": res.get("log", []),
         "logs_equal": res.get("logs_equal", True),
         "fired": res.get("fired", 0),
+        "thread_deaths": res.get("thread_deaths", []),
+        "hang_stacks": res.get("hang_stacks", []),
         "stderr_tail": (res.get("term2_tail") or "")[-200:],
     }
 
